@@ -191,3 +191,109 @@ def pp(s, ind=0):
                 lines.append(pp(x, ind + 1))
         return "\n".join(lines)
     return pad + repr(s)
+
+
+# ------------------------------------------------------------------ inventory of declarations
+def _sig(n):
+    return (n.get("type") or {}).get("qualType", "")
+
+
+def inventory(docs, classes=(), functions=None, namespace=None):
+    """Every member of the named classes (methods, constructors, destructors, conversion operators, fields, static data members,
+    friend declarations, implicit special members that the translation unit made clang declare) and every namespace-level
+    function / function template whose name passes `functions` (a predicate; None = all), found in the filtered AST documents.
+    Returns {key: info}; key = '<Class>::<name> <type>' / '<name> <type>' (+ ' [template]' / ' [implicit]' / ' [deleted]' marks)."""
+    out = {}
+
+    def add(key, **info):
+        if key not in out:
+            out[key] = info
+        else:
+            out[key]["count"] = out[key].get("count", 1) + 1
+            if info.get("has_body"):
+                out[key]["has_body"] = True
+
+    def member(cls, c):
+        k = c.get("kind")
+        nm = c.get("name")
+        marks = ""
+        if c.get("isImplicit"):
+            marks += " [implicit]"
+        if c.get("explicitlyDeleted"):
+            marks += " [deleted]"
+        if c.get("explicitlyDefaulted"):
+            marks += " [=%s]" % c.get("explicitlyDefaulted")
+        if k in ("CXXMethodDecl", "CXXConstructorDecl", "CXXDestructorDecl", "CXXConversionDecl"):
+            st = " static" if c.get("storageClass") == "static" else ""
+            vi = " virtual" if c.get("virtual") else ""
+            add("%s::%s %s%s%s%s" % (cls, nm, _sig(c), st, vi, marks), kind=k, has_body=body_of(c) is not None)
+        elif k == "FieldDecl":
+            add("field %s::%s %s" % (cls, nm, _sig(c)), kind=k)
+        elif k == "VarDecl":
+            add("static-field %s::%s %s" % (cls, nm, _sig(c)), kind=k)
+        elif k == "FriendDecl":
+            add("friend-of %s: %s" % (cls, (c.get("type") or {}).get("qualType") or (inner(c)[0].get("name") if inner(c) else "?")), kind=k)
+        elif k == "FunctionTemplateDecl":
+            for f in inner(c):
+                if f.get("kind") in ("CXXMethodDecl", "CXXConstructorDecl"):
+                    add("%s::%s %s [template]" % (cls, nm, _sig(f)), kind=k)
+                    break
+    for d in docs:
+        k, nm = d.get("kind"), d.get("name")
+        if k == "CXXRecordDecl" and nm in classes and d.get("completeDefinition"):
+            bases = [(b.get("type") or {}).get("qualType") for b in (d.get("bases") or [])]
+            add("class %s%s" % (nm, " : " + ", ".join(bases) if bases else ""), kind=k)
+            for c in inner(d):
+                if c.get("kind") == "CXXRecordDecl" and c.get("isImplicit"):
+                    continue
+                if c.get("kind") in ("AccessSpecDecl",) or c.get("kind", "").endswith("Comment"):
+                    continue
+                if c.get("kind") == "CXXRecordDecl":
+                    add("nested-class %s::%s" % (nm, c.get("name")), kind="CXXRecordDecl")
+                    continue
+                member(nm, c)
+        elif k in ("CXXMethodDecl", "CXXConstructorDecl", "CXXDestructorDecl", "CXXConversionDecl"):
+            # out-of-class definition: class from the mangled / parent name is not in the JSON; matched by signature below
+            pass
+        elif k == "FunctionDecl" and (functions is None or functions(nm)):
+            marks = " [deleted]" if d.get("explicitlyDeleted") else ""
+            ta = [x for x in inner(d) if x.get("kind") == "TemplateArgument"]
+            if ta:
+                marks += " [specialization <%s>]" % ", ".join(str((t.get("type") or {}).get("qualType") or t.get("value")) for t in ta)
+            add("%s %s%s" % (nm, _sig(d), marks), kind=k, has_body=body_of(d) is not None)
+        elif k == "FunctionTemplateDecl" and (functions is None or functions(nm)):
+            prim = None
+            for f in inner(d):
+                if f.get("kind") == "FunctionDecl":
+                    ta = [x for x in inner(f) if x.get("kind") == "TemplateArgument"]
+                    if not ta and prim is None:
+                        prim = f
+                        add("%s %s [template]%s" % (nm, _sig(f), " [deleted]" if f.get("explicitlyDeleted") else ""), kind=k)
+                    elif ta:
+                        add("%s %s [instantiation <%s>]" % (nm, _sig(f), ", ".join(str((t.get("type") or {}).get("qualType") or t.get("value")) for t in ta)), kind="inst")
+        elif k == "VarDecl" and (functions is None or functions(nm)) and not d.get("isImplicit"):
+            pass
+    return out
+
+
+def cover_check(inv, cover, counts):
+    """inv: {declaration key: info} found in the working tree; cover: {key: {'by': [theorems], 'ops': [count keys]} | {'out': reason}};
+    counts: {count key: executed cases}.  Returns (problems, report): problems name every declaration that is new, gone/changed, or
+    covered by nothing that ran; report = {key: executed count | 'out of scope: ...'}."""
+    problems, report = [], {}
+    for k in sorted(inv):
+        if k not in cover:
+            problems.append("inventory: declaration not in the COVER table (new or changed signature): %s" % k)
+    for k in sorted(cover):
+        e = cover[k]
+        if k not in inv:
+            problems.append("inventory: COVER entry has no declaration in the working tree any more (removed or signature changed): %s" % k)
+            continue
+        if "out" in e:
+            report[k] = "out of scope: " + e["out"]
+            continue
+        n = sum(int(counts.get(o, 0)) for o in e.get("ops", []))
+        report[k] = n
+        if n == 0:
+            problems.append("inventory: covered declaration with no executed case in this run: %s (operations %s)" % (k, e.get("ops")))
+    return problems, report
